@@ -1,9 +1,14 @@
+import Mathlib.Algebra.Field.Basic
 import Q1t.Proofs.SimCapstone
+import Q1t.Proofs.SimExtras
+import Q1t.Proofs.SimDischarge
+import Q1t.Proofs.SimDemo
+import Q1t.Proofs.SimComplex
 /-!
 # C02 — every shot is a possible run and holds the exact conditional state
 
 Property theorems only; proofs are in `Q1t/Proofs/Sim{Basic,Alg,Gate,Reg,Measure,Ranges,Shots,Exec,Rel,
-BitsAll,Refine,MeasAll,Capstone}.lean`.
+BitsAll,Refine,MeasAll,Embed1,BasisAll,ResetAll,Capstone,Extras,BasisGates,Discharge,Demo,Complex}.lean`.
 
 Objects.  `Sim.execOps vecBackend` is the executable model of `Circuit::do_execute_with` on the vector
 backend (`Q1t/Model/Sim.lean`; tied to the code by correspondence (A) of `tools/check.py C02`): a term of the
@@ -21,9 +26,17 @@ drawn only if its weight is).
 
 **Explicit hypothesis `GateSemOK α n valid`** (`Q1t/Proofs/SimGate.lean`): on gate instances accepted by
 `valid`, both application routes of the gate model return the documented unitary embedded on the chosen qubits
-(`mat`, `vec`: to be discharged by C04 + C05), the embedded documented unitary preserves the squared norm
-(`iso`), `H`, `S`, `S†`, `X` on a qubit below `n` are valid instances (`basis`), and `H·H = 1`, `S·S† = 1`
-for the embedded documented matrices (`hh`, `ssdg`).  It is NOT proved here.
+(`mat`, `vec`: these follow from C04 + C05, `Q1t/Proofs/RouteSim.lean`), the embedded documented unitary
+preserves the squared norm (`iso`), `H`, `S`, `S†`, `X` on a qubit below `n` are valid instances (`basis`), and
+`H·H = 1`, `S·S† = 1` for the embedded documented matrices (`hh`, `ssdg`).  It is a hypothesis of
+`shot_refinement`; it is PROVED (`gateSemOK_basis_gates`) when `valid` = {`H`, `X`, `S`, `S†` on one qubit}, so
+`shot_refinement_basis_gates` has no gate hypothesis at all.  For other gates `iso` (norm preservation of the
+embedded documented unitary) is the part that C04/C05 do not yet provide.
+
+Other hypotheses: `NonzeroOK nonzero` (the norm test handed to the reference semantics accepts every vector of
+invertible weight; the exact test of a field does); `LocalWeights α` (a sum of two weights is invertible only
+if one is; every field) — needed only for circuits containing `reset_all`; `OpOK` (the classical targets of a
+`measure_all`/`peek_all` are distinct: D14 excluded).
 -/
 namespace Q1t.Props.C02
 open Q1t Q1t.Sim Q1t.Spec Q1t.Sim.Prog
@@ -34,19 +47,10 @@ variable {n : Nat} {valid : GateTerm P → List Nat → Prop} {nz : α → Prop}
 
 /-! ## the capstone -/
 
-/- FULL STATEMENT (`shot_refinement`): as below for every operation list whose gate instances are valid and
-   whose `measure_all` / `peek_all` targets are distinct (D14 excluded).
-   PROVED (`shot_refinement_partial`): the same for operation lists satisfying `OpOK`, i.e. additionally
-   * `measure_all` / `peek_all` only in the Z basis (single-qubit `measure` / `peek` in all of X, Y, Z), and
-   * no `reset_all`.
-   Missing for the full statement: commutation of the single-qubit basis-change gates with gates and
-   projectors on other qubits (for X/Y `measure_all`/`peek_all`), and the action of the embedded `X` on basis
-   states (for `reset_all`); both are facts about `Spec.embed` only. -/
-
-/-- **shot_refinement (partial: `OpOK`)** — for every register size `n`, every number of shots `N`, every
-circuit `ops` (gates and conditional gates on valid instances, barriers, `measure`/`peek` in the bases X, Y, Z,
-`reset`, `measure_all`/`peek_all` in the Z basis on distinct classical bits), every draw list `ds` in the
-support: if the model run succeeds with final state `s'` and register `c'`, then
+/-- **shot_refinement** — for every register size `n`, every number of shots `N`, every circuit `ops` over
+ALL operation kinds (gates and conditional gates on valid instances; barriers; `measure`, `peek`, `measure_all`,
+`peek_all` in the bases X, Y, Z; `reset`; `reset_all`) with distinct `measure_all`/`peek_all` targets, every
+draw list `ds` in the support: if the model run succeeds with final state `s'` and register `c'`, then
 * the ranges account for exactly `N` shots and the register has `N` words (`WFState`);
 * there is the trace `regs` of register snapshots after each operation (`RunsTrace`: the same run, operation by
   operation), and for every shot `i < N` the column `outs` of its words in that trace (`ShotRecord`: the
@@ -54,9 +58,10 @@ support: if the model run succeeds with final state `s'` and register `c'`, then
   `Spec.replay n nonzero ops outs` from `|0…0⟩` has a candidate `(φ, w)` with `w` the shot's final word,
   of non-zero weight (`normSqSum φ` is invertible), and the simulator's state `col` of shot `i` is `φ` up to a
   scalar and has unit norm (`Rel`). -/
-theorem shot_refinement_partial (ha : LawfulAmp α P) (hs : LawfulSim α P nz) (hsem : GateSemOK α n valid)
+theorem shot_refinement (ha : LawfulAmp α P) (hs : LawfulSim α P nz) (hsem : GateSemOK α n valid)
     {nonzero : List α → Bool} (hnzb : NonzeroOK nonzero) {N : Nat} (ops : List (COp P))
-    (hv : OpsValid valid ops) (hok : ∀ op ∈ ops, OpOK op) {ds ds' : List Draw} {s' : VecState α} {c' : List Nat}
+    (hv : OpsValid valid ops) (hok : ∀ op ∈ ops, OpOK op) (hloc : COp.resetAll ∈ ops → LocalWeights α)
+    {ds ds' : List Draw} {s' : VecState α} {c' : List Nat}
     (hrun : runOracle (execOps (vecBackend (α := α) (P := P)) (VecState.new n N) (List.replicate N 0) ops) ds =
       some (.ok (s', c'), ds'))
     (hsupp : Supported (suppBin nz) (suppCat nz)
@@ -66,14 +71,15 @@ theorem shot_refinement_partial (ha : LawfulAmp α P) (hs : LawfulSim α P nz) (
         (List.replicate N 0) ops ds regs s' c' ds' ∧
       ∀ i, i < N → ∃ outs col w φ, ShotRecord regs i outs ∧ (shotStates s')[i]? = some col ∧ c'[i]? = some w ∧
         (φ, w) ∈ replay n nonzero ops outs [(ket0 n, 0)] ∧ Rel n col φ ∧ ∃ u : α, normSqSum φ * u = 1 :=
-  shot_refinement_runs ha hs hsem hnzb ops hv hok ((runs_iff _ _ _ _ _ _).mpr ⟨hrun, hsupp⟩)
+  shot_refinement_runs ha hs hsem hnzb ops hv hok hloc ((runs_iff _ _ _ _ _ _).mpr ⟨hrun, hsupp⟩)
 
 /-- the invariant behind it, from ANY well-formed intermediate state (so also for `reexecute`, C09): a shot
 related to a candidate of the replay so far stays related to a candidate of the replay continued with the
 shot's own outcome record -/
 theorem refinement_invariant (ha : LawfulAmp α P) (hs : LawfulSim α P nz) (hsem : GateSemOK α n valid)
     {nonzero : List α → Bool} (hnzb : NonzeroOK nonzero) {N : Nat} (ops : List (COp P)) (s : VecState α)
-    (c : List Nat) (hv : OpsValid valid ops) (hok : ∀ op ∈ ops, OpOK op) (hwf : WFState n N s c)
+    (c : List Nat) (hv : OpsValid valid ops) (hok : ∀ op ∈ ops, OpOK op)
+    (hloc : COp.resetAll ∈ ops → LocalWeights α) (hwf : WFState n N s c)
     {ds ds' : List Draw} {s' : VecState α} {c' : List Nat} {regs : List (List Nat)}
     (ht : RunsTrace (vecBackend (α := α) (P := P)) (suppBin nz) (suppCat nz) s c ops ds regs s' c' ds')
     (i : Nat) (col : List α) (w : Nat) (ψ : List α) (cands : List (List α × Nat))
@@ -81,7 +87,16 @@ theorem refinement_invariant (ha : LawfulAmp α P) (hs : LawfulSim α P nz) (hse
     (hmem : (ψ, w) ∈ cands) :
     ∃ outs col' w' φ, ShotRecord regs i outs ∧ (shotStates s')[i]? = some col' ∧ c'[i]? = some w' ∧
       w' < 2 ^ 64 ∧ (φ, w') ∈ replay n nonzero ops outs cands ∧ Rel n col' φ :=
-  execOps_refine ha hs hsem hnzb ops s c hv hok hwf ht i col w ψ cands hcol hw hwb hrel hmem
+  execOps_refine ha hs hsem hnzb ops s c hv hok hloc hwf ht i col w ψ cands hcol hw hwb hrel hmem
+
+/-- one operation refines one step of the forced replay (`StepRefines`), every operation kind -/
+theorem step_refinement (ha : LawfulAmp α P) (hs : LawfulSim α P nz) (hsem : GateSemOK α n valid)
+    {nonzero : List α → Bool} (hnzb : NonzeroOK nonzero) {N : Nat} {s : VecState α} {c : List Nat} {op : COp P}
+    (hloc : op = .resetAll → LocalWeights α) (hop : OpValid valid op) (hok : OpOK op) (hwf : WFState n N s c)
+    {ds ds' : List Draw} {s' : VecState α} {c' : List Nat}
+    (h : Runs (suppBin nz) (suppCat nz) (execOp (vecBackend (α := α) (P := P)) s c op) ds (.ok (s', c')) ds') :
+    StepRefines n nonzero op s c s' c' :=
+  execOp_refine ha hs hsem hnzb hloc hop hok hwf h
 
 /-- `RunsTrace` is nothing but the run itself, cut at the operation boundaries -/
 theorem trace_iff_run {W S : Type} (B : Backend W P S) (sb : Nat → W → Nat → Prop) (sc : List W → Nat → Prop)
@@ -94,6 +109,41 @@ theorem runs_iff_oracle {W β : Type} (sb : Nat → W → Nat → Prop) (sc : Li
     (ds : List Draw) (r : Except Fail β) (ds' : List Draw) :
     Runs sb sc p ds r ds' ↔ (runOracle p ds = some (r, ds') ∧ Supported sb sc p ds) :=
   runs_iff sb sc p ds r ds'
+
+/-! ## discharging the hypotheses -/
+
+/-- **`GateSemOK` is proved** for `H`, `X`, `S`, `S†` on any qubit of any register (mat/vec routes from C04 +
+C05; `iso`, `hh`, `ssdg` from the two-term formula of a one-qubit embedding), every lawful amplitude ring -/
+theorem gateSemOK_basis_gates (ha : LawfulAmp α P) (hs : LawfulSim α P nz) (n : Nat) :
+    GateSemOK α n (basisValid (P := P) n) :=
+  gateSemOK_basis ha hs n
+
+/-- `shot_refinement` with NO gate hypothesis, for circuits whose (plain or conditional) gates are `H`, `X`,
+`S`, `S†` on one qubit, and all measurement / peek / reset operations in all bases -/
+theorem shot_refinement_basis_gates (ha : LawfulAmp α P) (hs : LawfulSim α P nz)
+    {nonzero : List α → Bool} (hnzb : NonzeroOK nonzero) {n N : Nat} (ops : List (COp P))
+    (hv : OpsValid (basisValid (P := P) n) ops) (hok : ∀ op ∈ ops, OpOK op)
+    (hloc : COp.resetAll ∈ ops → LocalWeights α)
+    {ds ds' : List Draw} {s' : VecState α} {c' : List Nat}
+    (hrun : runOracle (execOps (vecBackend (α := α) (P := P)) (VecState.new n N) (List.replicate N 0) ops) ds =
+      some (.ok (s', c'), ds'))
+    (hsupp : Supported (suppBin nz) (suppCat nz)
+      (execOps (vecBackend (α := α) (P := P)) (VecState.new n N) (List.replicate N 0) ops) ds) :
+    WFState n N s' c' ∧
+    ∃ regs, RunsTrace (vecBackend (α := α) (P := P)) (suppBin nz) (suppCat nz) (VecState.new n N)
+        (List.replicate N 0) ops ds regs s' c' ds' ∧
+      ∀ i, i < N → ∃ outs col w φ, ShotRecord regs i outs ∧ (shotStates s')[i]? = some col ∧ c'[i]? = some w ∧
+        (φ, w) ∈ replay n nonzero ops outs [(ket0 n, 0)] ∧ Rel n col φ ∧ ∃ u : α, normSqSum φ * u = 1 :=
+  shot_refinement ha hs (gateSemOK_basis ha hs n) hnzb ops hv hok hloc hrun hsupp
+
+/-- every field has `LocalWeights` -/
+theorem localWeights_of_field (K : Type) [Field K] : LocalWeights K := by
+  intro a b ⟨u, hu⟩
+  by_cases ha : a = 0
+  · right
+    subst ha
+    exact ⟨u, by rwa [zero_add] at hu⟩
+  · exact Or.inl ⟨a⁻¹, mul_inv_cancel₀ ha⟩
 
 /-! ## the parts -/
 
@@ -143,6 +193,23 @@ theorem measure_per_shot (hs : LawfulSim α P nz) {sc : List α → Nat → Prop
         nz (if o then 1 - w0Of s.nrBits q col else w0Of s.nrBits q col) :=
   (measure_shot hs hwf hres h).2.2.2.2.2.2
 
+/-- **a peek leaves the state untouched**: single-qubit peek, any basis (the basis change and its inverse
+cancel), every shot -/
+theorem peek_leaves_state (hsem : GateSemOK α n valid) {sb : Nat → α → Nat → Prop} {sc : List α → Nat → Prop}
+    {N : Nat} {s : VecState α} {c : List Nat} {q cb : Nat} {b : Basis}
+    (hwf : WFState n N s c) {ds ds' : List Draw} {s' : VecState α} {c' : List Nat}
+    (h : Runs sb sc (execOp (vecBackend (α := α) (P := P)) s c (.peek q cb b)) ds (.ok (s', c')) ds') :
+    shotStates s' = shotStates s :=
+  peek_untouched hsem hwf h
+
+/-- … and so does `peek_all` -/
+theorem peek_all_leaves_state (hsem : GateSemOK α n valid) {sb : Nat → α → Nat → Prop} {sc : List α → Nat → Prop}
+    {N : Nat} {s : VecState α} {c cbits : List Nat} {b : Basis}
+    (hwf : WFState n N s c) {ds ds' : List Draw} {s' : VecState α} {c' : List Nat}
+    (h : Runs sb sc (execOp (vecBackend (α := α) (P := P)) s c (.peekAll cbits b)) ds (.ok (s', c')) ds') :
+    shotStates s' = shotStates s :=
+  peekAll_untouched hsem hwf h
+
 /-- **reset, per shot**: a hidden outcome `o` of valid non-zero weight, collapse, then `X` iff `o = 1`;
 the other qubits are in the state matching the hidden outcome -/
 theorem reset_per_shot (hs : LawfulSim α P nz) (hsem : GateSemOK α n valid) {sc : List α → Nat → Prop}
@@ -156,5 +223,87 @@ theorem reset_per_shot (hs : LawfulSim α P nz) (hsem : GateSemOK α n valid) {s
         nz (if o then 1 - w0Of n q col else w0Of n q col) :=
   reset_shot hs hsem hn hwf h
 
+/-- … and **the qubit is left in `|0⟩`**: whatever the hidden outcome, the new state of the shot has no
+amplitude on a basis index with qubit `q` set -/
+theorem reset_leaves_qubit_zero {q r : Nat} (hq : q < n) (hr : r < 2 ^ n) (col : List α) (o : Bool)
+    (h1 : qbit n q r = 1) : (resetShot (P := P) n q col o).getD r 0 = 0 :=
+  resetShot_qubit_zero hq hr col o h1
+
 end
+
+/-! ## the intended model: complex amplitudes -/
+
+open Q1t.SimComplex Q1t.AmpComplex in
+/-- ℂ with the real cosine/sine, `|a|² = a·ā`, `rsqrt w = 1/√w`, `min1 w = min(w, 1)` and `nz` = "is a positive
+real" satisfies every algebraic hypothesis, and `GateSemOK` for the basis gates on every register -/
+theorem complex_is_model : LawfulAmp ℂ ℝ ∧ LawfulSim ℂ ℝ nzC ∧ LocalWeights ℂ ∧ NonzeroOK nonzeroC ∧
+    ∀ n, GateSemOK ℂ n (basisValid (P := ℝ) n) :=
+  ⟨Q1t.AmpComplex.lawful, Q1t.SimComplex.lawfulSim, Q1t.SimComplex.localWeights, nonzeroC_ok,
+    fun n => gateSemOK_basis Q1t.AmpComplex.lawful Q1t.SimComplex.lawfulSim n⟩
+
+open Q1t.SimComplex Q1t.AmpComplex in
+/-- **shot_refinement over ℂ**, no algebraic and no gate hypothesis: circuits over `H`, `X`, `S`, `S†` (plain or
+conditional) and all measurement / peek / reset operations (all bases, `reset_all` included), all `n`, `N`, all
+draws in the support ("an outcome is drawn only if its weight is a positive real") -/
+theorem shot_refinement_complex {n N : Nat} (ops : List (COp ℝ))
+    (hv : OpsValid (basisValid (P := ℝ) n) ops) (hok : ∀ op ∈ ops, OpOK op)
+    {ds ds' : List Draw} {s' : VecState ℂ} {c' : List Nat}
+    (hrun : runOracle (execOps (vecBackend (α := ℂ) (P := ℝ)) (VecState.new n N) (List.replicate N 0) ops) ds =
+      some (.ok (s', c'), ds'))
+    (hsupp : Supported (suppBin nzC) (suppCat nzC)
+      (execOps (vecBackend (α := ℂ) (P := ℝ)) (VecState.new n N) (List.replicate N 0) ops) ds) :
+    WFState n N s' c' ∧
+    ∃ regs, RunsTrace (vecBackend (α := ℂ) (P := ℝ)) (suppBin nzC) (suppCat nzC) (VecState.new n N)
+        (List.replicate N 0) ops ds regs s' c' ds' ∧
+      ∀ i, i < N → ∃ outs col w φ, ShotRecord regs i outs ∧ (shotStates s')[i]? = some col ∧ c'[i]? = some w ∧
+        (φ, w) ∈ replay n nonzeroC ops outs [(ket0 n, 0)] ∧ Rel n col φ ∧ normSqSum φ ≠ 0 := by
+  obtain ⟨h1, regs, h2, h3⟩ := shot_refinement_basis_gates Q1t.AmpComplex.lawful Q1t.SimComplex.lawfulSim
+    nonzeroC_ok ops hv hok (fun _ => Q1t.SimComplex.localWeights) hrun hsupp
+  refine ⟨h1, regs, h2, fun i hi => ?_⟩
+  obtain ⟨outs, col, w, φ, a, b, c, d, e, u, hu⟩ := h3 i hi
+  exact ⟨outs, col, w, φ, a, b, c, d, e, fun h0 => by rw [h0, zero_mul] at hu; exact zero_ne_one hu⟩
+
+/-! ## non-vacuity -/
+
+open Q1t.Sim.Demo
+
+/-- the hypotheses are jointly satisfiable, for every register size: the exact field `Q8 = ℚ(ζ₈)` with the
+(partial) `rsqrt` on the weights 1, ½, ¼ is a model of `LawfulAmp`, `LawfulSim`, `GateSemOK` (basis gates) and
+`NonzeroOK` (exact norm test) -/
+example (n : Nat) : LawfulAmp Q8 Empty ∧ LawfulSim Q8 Empty nzQ8 ∧ GateSemOK Q8 n (basisValid (P := Empty) n) ∧
+    NonzeroOK nonzeroQ8 :=
+  ⟨Q8.lawful, lawfulSimQ8, gateSemOK_basis Q8.lawful lawfulSimQ8 n, nonzeroQ8_ok⟩
+
+/-- a concrete circuit on 2 qubits and 2 shots — `H`, a Y-basis collapsing measurement, a conditional gate, a
+reset, an X-basis peek, a barrier, `measure_all` (Z) and `peek_all` (X) — satisfies all hypotheses and has a
+successful run on draws in the support (kernel-computed) … -/
+example : OpsValid (basisValid (P := Empty) 2) demoOps ∧ (∀ op ∈ demoOps, OpOK op) ∧
+    ∃ s', runOracle demoProg demoDraws = some (.ok (s', [4, 57]), []) ∧
+      Supported (suppBin nzQ8) (suppCat nzQ8) demoProg demoDraws :=
+  ⟨demo_valid, demo_ok, demo_run⟩
+
+/-- … so the conclusion of `shot_refinement` holds for it: both shots are possible runs holding the exact
+conditional state -/
+example : ∃ (s' : VecState Q8) (regs : List (List Nat)),
+    ∀ i, i < 2 → ∃ outs col w φ, ShotRecord regs i outs ∧ (shotStates s')[i]? = some col ∧
+      ([4, 57] : List Nat)[i]? = some w ∧ (φ, w) ∈ replay 2 nonzeroQ8 demoOps outs [(ket0 2, 0)] ∧ Rel 2 col φ ∧
+      ∃ u : Q8, normSqSum φ * u = 1 := by
+  obtain ⟨s', hrun, hsupp⟩ := demo_run
+  obtain ⟨_, regs, _, h⟩ := shot_refinement_basis_gates Q8.lawful lawfulSimQ8 nonzeroQ8_ok demoOps demo_valid demo_ok
+    (fun h => absurd h demo_no_resetAll) hrun hsupp
+  exact ⟨s', regs, h⟩
+
+/-! ## negative witness: D5 (stabilizer backend) -/
+
+/-- **D5**: the property FAILS on the stabilizer backend for `peek_all`.  On the model of `StabilizerState`
+(`Q1t/Model/StabSim.lean`, with the phase and conjugation tables generated from the source), the circuit
+`h(0); cx(0,1); peek_all → bits 0,1` with draws in the support (qubit 0 peeked as 0 and qubit 1 peeked as 1, each
+an outcome of probability ½ of its own, independent, binomial) succeeds and stores the word `0b10`; the
+reference semantics has NO candidate for the record `00, 00, 10`: a Bell pair never yields different bits. -/
+theorem stab_peek_all_bell_impossible_value :
+    (∃ s', runOracle bellProg bellDraws = some (.ok (s', [2]), []) ∧
+      Supported (suppBin nzQ8) (suppCat nzQ8) bellProg bellDraws) ∧
+    Spec.replay (P := Empty) 2 nonzeroQ8 bellPeekAll [0, 0, 2] [(ket0 2, 0)] = [] :=
+  d5_witness
+
 end Q1t.Props.C02
